@@ -1299,6 +1299,7 @@ impl<
         >,
         RequestResponseCreateError,
     > {
+        self.adjust_configuration_to_meaningful_values();
         self.prepare_message_type_details();
         self.create_impl(attributes)
     }
@@ -1439,6 +1440,7 @@ impl<
         >,
         RequestResponseCreateError,
     > {
+        self.adjust_configuration_to_meaningful_values();
         self.prepare_message_type_details();
         self.create_impl(attributes)
     }
@@ -1573,6 +1575,7 @@ impl<
         >,
         RequestResponseCreateError,
     > {
+        self.adjust_configuration_to_meaningful_values();
         self.prepare_message_type_details();
         self.create_impl(attributes)
     }
